@@ -269,4 +269,22 @@ def run(prog, rep):
         rep.check(norm == want, "E2.x-g", "StatementContext::fmt_pretty", f.loc(), "three excerpts: statement (tsg), stanza (tsg), node (source)", "pretty rendering excerpts %s" % got)
     else:
         rep.violation("E2.x-g", "anchor-lost:fmt_pretty", "", "not found")
+    # the excerpt shows the line that the row counts: rows (parser and tree-sitter alike) count '\n' only
+    fs = [f for f in prog.fns.values() if f.name == "from_source" and (f.self_path or "").endswith("parse_error::Excerpt")]
+    if len(fs) == 1:
+        f = fs[0]
+        tr = Tracer(f.body)
+        aggs = [st for b in sorted(f.body.reachable()) for st in f.body.blocks[b]["stmts"] if st["k"] == "assign" and st["rv"]["k"] == "aggregate" and (st["rv"].get("adt") or "").endswith("parse_error::Excerpt")]
+        ok = len(aggs) == 1
+        d = {}
+        if ok:
+            d = {k: canon_full(tr.operand(v)) for k, v in zip(aggs[0]["rv"]["fields"], aggs[0]["rv"]["ops"])}
+            LINES = r"(str::lines\(&\*arg:source\)|str::split(_terminator)?\(&\*arg:source, '\\n'\))"
+            ok = (re.match(r"^Iterator::nth\(&(mut )?" + LINES + r", arg:row\)$", d.get("source", "")) is not None or
+                  re.match(r"^Iterator::next\(&(mut )?Iterator::skip\(" + LINES + r", arg:row\)\)$", d.get("source", "")) is not None) and \
+                d.get("row") == "arg:row" and d.get("path", "").lstrip("&*") == "arg:path"
+        rep.check(ok, "E2.x-g", "Excerpt::from_source :: cited line", f.loc(), "source line = the row-th '\\n'-separated line of the given text; row and path stored as given",
+                  "the excerpt does not show the row-th newline-separated line of the text it was given: %s" % {k: v[:80] for k, v in d.items() if k in ("source", "row", "path")})
+    else:
+        rep.violation("E2.x-g", "anchor-lost:Excerpt::from_source", "", "not found")
     rep.trust("Display of the AST statements renders the statement text")
